@@ -304,7 +304,8 @@ func mkCase(S []PV, tags []string) fw.Case {
 	}
 	wf := allWF(S)
 	if wf {
-		script = append(script, fw.Join("tree.flat2 1", s), fw.Join("tree.flat3 0", s))
+		script = append(script, fw.Join("tree.flat2 1", s), fw.Join("tree.flat3 0", s),
+			fw.Join("tree.buildelems2 1", s), fw.Join("tree.buildelems3 0", s))
 	}
 	// classification
 	nt := false
